@@ -28,7 +28,7 @@ PROPS_RS = "/verif/c20_rs/props.rs"
 REPO = "/repo"
 TARGET_REPO = "/verif/target/repo"
 
-STALL_S = 120  # a case takes milliseconds; no protocol line for this long => the worker is stuck
+STALL_S = 90  # a case takes milliseconds (the CLI writer has a 60 s timeout); no protocol line for this long => stuck
 CARGO_TIMEOUT_S = 1500
 
 
